@@ -351,6 +351,7 @@ def main():
             sys.exit(2)
         obs, vs = evaluate(pid, mod, [case], tag="replay")
         print(json.dumps({"case": case, "observed": obs[0], "verdict": vs[0]}, indent=1)[:6000])
+        print("verdict=%s (0 ok, 1 outside the modelled domain, 2 known class meets the spec, >=100 known finding, -1 violation)" % vs[0])
         if vs[0] == -1 or vs[0] >= 100:
             print("VIOLATION property=%s replay=%s" % (pid, args.replay))
             sys.exit(1)
